@@ -85,14 +85,30 @@ def item(c):
                     pos_ = (r - 1 - i_) * k + (k - 1 - j_)
                     A[i_, j_] = w_[pos_ * bits:(pos_ + 1) * bits]
         decA = lambda ins: [[v if (i + j) % 2 == 0 else 0 for j, v in enumerate(row)] for i, row in enumerate(dec(ins['A'], r, k, min(bits, mb)))]
+    elif c.get('ctor') == 'list_shared':
+        # built from a list of lists of WireVectors of exactly the element width; the caller builds a second Matrix from the
+        # same list and writes to it, and reuses the list afterwards: A keeps what it was given
+        w_ = I(r * k * bits, 'A')
+        lst_ = [[w_[((r - 1 - i_) * k + (k - 1 - j_)) * bits:((r - 1 - i_) * k + (k - 1 - j_) + 1) * bits] for j_ in range(k)] for i_ in range(r)]
+        A = M.Matrix(r, k, bits, value=lst_, max_bits=mb)
+        other_ = M.Matrix(r, k, bits, value=lst_, max_bits=mb)
+        other_[0, 0] = pyrtl.Const((1 << bits) - 1, bitwidth=bits)
+        other_[r - 1, k - 1] = pyrtl.Const(0, bitwidth=bits)
+        lst_[0][k - 1] = pyrtl.Const(1, bitwidth=bits)
+        lst_[r - 1] = [pyrtl.Const(0, bitwidth=bits)] * k
+        decA = lambda ins: dec(ins['A'], r, k, min(bits, mb))
     else:
         A = mat_in('A', r, k, bits, mb)
         decA = lambda ins: dec(ins['A'], r, k, min(bits, mb))
     two = op in ('add', 'sub', 'mul', 'matmul', 'dot', 'hstack', 'vstack', 'concat0', 'concat1', 'setitem', 'put_matrix')
     if two:
         r2, k2, b2 = c.get('r2', r), c.get('c2', k), c.get('bits2', bits)
-        B = mat_in('B', r2, k2, b2, mb)
-        decB = lambda ins: dec(ins['B'], r2, k2, min(b2, mb))
+        if c.get('same'):
+            # the very same Matrix object as the second operand (hstack(a, a), a + a, ...)
+            B, decB = A, decA
+        else:
+            B = mat_in('B', r2, k2, b2, mb)
+            decB = lambda ins: dec(ins['B'], r2, k2, min(b2, mb))
     exact = False
     if op == 'add':
         res = A + B
@@ -155,9 +171,9 @@ def item(c):
     elif op == 'dot':
         res = M.dot(A, B)
     elif op == 'hstack':
-        res = M.hstack(A, B)
+        res = M.hstack(A, B, A) if c.get('again') else M.hstack(A, B)
     elif op == 'vstack':
-        res = M.vstack(A, B)
+        res = M.vstack(A, B, A) if c.get('again') else M.vstack(A, B)
     elif op == 'concat0':
         res = M.concatenate([A, B], axis=0)
     elif op == 'concat1':
@@ -236,9 +252,9 @@ def item(c):
         elif op == 'dot':
             lst = _dot(a, b, r, k, r2, k2)
         elif op in ('hstack', 'concat0'):   # concatenate(): "0 is horizontally, 1 is vertically"
-            lst = [a[i] + b[i] for i in range(r)]
+            lst = [a[i] + b[i] + (a[i] if c.get('again') else []) for i in range(r)]
         elif op in ('vstack', 'concat1'):
-            lst = a + b
+            lst = a + b + (a if c.get('again') else [])
         elif op == 'to_wv':
             v = 0
             for i in range(r):
@@ -420,6 +436,12 @@ def cases(tier, seed):
             out.append({'op': op, 'r': r, 'c': k, 'bits': 3, 'ctor': 'partial'})
         for op in ('add', 'mul', 'hstack', 'vstack'):
             out.append({'op': op, 'r': r, 'c': k, 'bits': 2, 'bits2': 2, 'ctor': 'partial'})
+            out.append({'op': op, 'r': r, 'c': k, 'bits': 2, 'bits2': 2, 'same': True})
+        for op in ('hstack', 'vstack', 'concat0', 'concat1'):
+            out.append({'op': op, 'r': r, 'c': k, 'bits': 2, 'bits2': 2, 'again': True} if op in ('hstack', 'vstack') else
+                       {'op': op, 'r': r, 'c': k, 'bits': 2, 'bits2': 2, 'same': True})
+        for op in ('copy', 'to_wv', 'transpose'):
+            out.append({'op': op, 'r': r, 'c': k, 'bits': 3, 'ctor': 'list_shared'})
         if r == k:
             out.append({'op': 'pow', 'r': r, 'c': k, 'bits': 2, 'p': 1, 'ctor': 'partial'})
             if r <= 2:
